@@ -14,6 +14,7 @@ package main
 import (
 	"bufio"
 	"bytes"
+	"context"
 	"crypto/sha1"
 	"encoding/binary"
 	"encoding/json"
@@ -27,6 +28,7 @@ import (
 	"sort"
 	"strconv"
 	"strings"
+	"time"
 
 	"github.com/ethereum/go-ethereum/core/rawdb"
 	"github.com/ethereum/go-ethereum/ethdb"
@@ -246,11 +248,17 @@ func reopenImages(self string, cfg config, dirs []string, scratch string) []resu
 		if err := os.WriteFile(in, b, 0o644); err != nil {
 			tl.Fatal("write %s: %v", in, err)
 		}
-		cmd := exec.Command(self, "-mode", "child", "-in", in, "-res", res)
+		cctx, cancel := context.WithTimeout(context.Background(), 30*time.Minute)
+		cmd := exec.CommandContext(cctx, self, "-mode", "child", "-in", in, "-res", res)
 		var stderr bytes.Buffer
 		cmd.Stderr = &stderr
 		cmd.Stdout = &stderr
 		runErr := cmd.Run()
+		timedOut := cctx.Err() != nil
+		cancel()
+		if timedOut {
+			tl.Fatal("child process did not finish within 30 minutes")
+		}
 		started := -1
 		if fh, err := os.Open(res); err == nil {
 			sc := bufio.NewScanner(fh)
